@@ -95,7 +95,7 @@ func hFuzz(c M) M {
 	o["json_valid"] = true
 	if o["ok"] == true {
 		cmds := readOnlyCmds
-		if n, _ := strconv.Atoi(os.Getenv("KDRIVE_NCMDS")); n > 0 && n < len(cmds) {
+		if n, _ := strconv.Atoi(os.Getenv("KDRIVE_NCMDS")); n > 0 && n < len(cmds) && !boolean(c, "all") {
 			// a rotating subset, chosen by the text
 			h := fnv.New32a()
 			h.Write([]byte(text))
